@@ -937,6 +937,15 @@ fn exec<P: PT>(st: &mut State<P>, op: &Op<P>, o: &mut String, cap: usize) {
                     panic!("a cloned set iterator does not continue like the original");
                 }
             }
+            {
+                // `PrefixSet::default()`, and a mutable view of a set (`AsViewMut for &mut PrefixSet`)
+                let dflt: PrefixSet<P> = Default::default();
+                let mut c = st.t.clone();
+                let via_view_mut: Vec<P> = coll((&mut c).view_mut().into_iter(), cap).into_iter().map(|(p, _)| p.clone()).collect();
+                if !dflt.is_empty() || dflt.len() != 0 || dflt.iter().next().is_some() || via_view_mut != base {
+                    panic!("set default / view_mut disagree");
+                }
+            }
             if let Some(ok) = P::roundtrip_set(&st.t) {
                 if !ok {
                     panic!("set serde round trip differs");
@@ -1755,6 +1764,14 @@ fn shape_rec<P: PT, T: Val>(v: &TrieView<'_, P, T>, s: &mut String, depth: usize
 fn view_mut_act<P: PT, T: Val>(mut v: TrieViewMut<'_, P, T>, act: &Act, o: &mut String, cap: usize) {
     match act {
         Act::Info => {
+            // `prefix_value()` of the mutable view must agree with `prefix()` / `value()`
+            {
+                let pv = v.prefix_value().map(|(p, x)| (p.clone(), x.get()));
+                let expect = v.value().map(|x| (v.prefix().clone(), x.get()));
+                if pv != expect {
+                    panic!("TrieViewMut::prefix_value disagrees with prefix()/value()");
+                }
+            }
             key(o, "pfx=");
             w_p(o, v.prefix());
             let x = v.value().map(|x| x.get());
